@@ -240,3 +240,71 @@ pub fn scenario_strategy(modes: Modes, max_faults: usize) -> impl Strategy<Value
             sc
         })
 }
+
+// ------------------------------------------------------------------------------------------------
+// the same scenario space built from a choice tape (libFuzzer mutates the tape; see fuzz/fuzz_targets/sim_chaos.rs)
+
+pub fn fault_from_tape(t: &mut crate::wire::Tape, allow_corrupt: bool) -> Fault {
+    let dir = t.bool();
+    let ordinal = match t.below(8) {
+        0..=3 => t.below(5) as u32,
+        4..=6 => t.below(10) as u32,
+        _ => t.below(30) as u32,
+    };
+    let kind = match t.below(11) {
+        0..=4 => FaultKind::Drop,
+        5 | 6 => FaultKind::Dup { extra_ms: t.below(60) as u64 },
+        7 | 8 => FaultKind::Delay { ms: 1 + t.below(39) as u64 },
+        _ if allow_corrupt => FaultKind::Corrupt { frac: t.u16() },
+        _ => FaultKind::Drop,
+    };
+    let (from, to) = if dir { (0, 1) } else { (1, 0) };
+    Fault { from, to, ordinal, kind }
+}
+
+/// mirrors `scenario_strategy(Modes::Both, 4)` plus the fault-handler sets of the C03 grid
+pub fn scenario_from_tape(t: &mut crate::wire::Tape) -> Scenario {
+    let naks = nak_variants();
+    let handler_sets: [&[(u8, u8)]; 4] = [&[], &[(1, 3), (7, 3), (8, 3)], &[(1, 0), (7, 0), (8, 3)], &[(8, 0), (1, 3)]];
+    let cfg = CfgSpec {
+        seg: [16u16, 24, 32, 64, 1024][t.below(5)],
+        max_count: 1 + t.below(4) as u32,
+        ti: 1 + t.below(5) as i64,
+        ta: 1 + t.below(5) as i64,
+        tn: 1 + t.below(5) as i64,
+        crc: t.bool(),
+        closure: t.bool(),
+        null_checksum: t.bool(),
+        nak: naks[t.below(naks.len())].clone(),
+        handlers: handler_sets[t.below(4)].to_vec(),
+    };
+    let mut rcfg = cfg.clone();
+    rcfg.nak = naks[t.below(naks.len())].clone();
+    let mut sc = Scenario::two_entities(cfg.clone(), rcfg.clone());
+    sc.seed = t.u16() as u64;
+    sc.tau_ms = [0u64, 1, 1, 1, 10][t.below(5)];
+    sc.lat_ms = t.below(6) as u64;
+    let idw = [1u8, 2, 4, 8][t.below(4)];
+    let seqw = [1u8, 2, 4, 8][t.below(4)];
+    for e in sc.entities.iter_mut() {
+        e.id_width = idw;
+        e.seq_width = seqw;
+    }
+    let unack = t.bool();
+    let class = match t.below(10) {
+        0..=2 => ContentClass::Random,
+        3 => ContentClass::Zero,
+        4 | 5 => ContentClass::ZeroRuns { seg: cfg.seg },
+        6..=8 => ContentClass::Neutral,
+        _ => ContentClass::ZeroTail { n: 1 + t.below(199) as u32 },
+    };
+    let pick = t.u8();
+    sc.puts.push(simple_put(size_for(cfg.seg, pick), class, sc.seed ^ 0xABCD, unack));
+    let nf = t.below(5);
+    for _ in 0..nf {
+        let f = fault_from_tape(t, cfg.crc);
+        sc.faults.push(f);
+    }
+    sc.horizon_ms = generous_horizon(&[&cfg, &rcfg]);
+    sc
+}
